@@ -71,16 +71,17 @@ impl From<&serde_json::Value> for JsonShape {
                         }),
                         optional: false,
                     }
-                } else if values.len() == 1
-                    || values
-                        .windows(2)
-                        .map(|val| {
-                            (
-                                Self::from(val.first().unwrap()),
-                                Self::from(val.get(1).unwrap()),
-                            )
-                        })
-                        .all(|val| val.0 == val.1)
+                } else if !values.is_empty()
+                    && (values.len() == 1
+                        || values
+                            .windows(2)
+                            .map(|val| {
+                                (
+                                    Self::from(val.first().unwrap()),
+                                    Self::from(val.get(1).unwrap()),
+                                )
+                            })
+                            .all(|val| val.0 == val.1))
                 {
                     Self::Array {
                         r#type: Box::new(Self::from(values[0].clone())),
